@@ -567,7 +567,98 @@ def run_pair_preempt(rec, case):
         sim.teardown()
 
 
+def run_shutdown(rec, case):
+    """server.shutdown() called by the application while sessions exist and
+    while new clients keep connecting (disconnect handlers that block / await
+    for a while in a share of the cases). Whatever shutdown does with the
+    sessions, the session-event contract is unchanged: an accepted session
+    either got exactly one disconnect event or is still a working session;
+    afterwards a client CLOSE ends each survivor with one event."""
+    srv, modes, dt, late = case['srv'], case['modes'], case['suspend'], \
+        case['late']
+    rec.evaluations += 1
+    rec.count('shutdown_scenarios')
+    rec.key('shutdown/%s/%s/%s/%s' % (srv, ','.join(modes), dt, late))
+    hcfg = {'suspend': {'disconnect': dt}} if dt else {}
+    sim = scen.make_sim(srv, server_kwargs={'ping_interval': 25,
+                                            'ping_timeout': 20},
+                        handler_cfg=hcfg, async_handlers_coro=True)
+    R = hist.Runner(sim)
+
+    def V(key, msg):
+        rec.viol(key, msg + ' | SHUTDOWN server=%s sessions=%r disconnect '
+                 'handler suspends %r, %d opens during / after shutdown' % (
+                     srv, modes, dt, late), case)
+    try:
+        for m in modes:
+            R.open(m, autopoll=True, autopong=0)
+        sim.quiesce()
+        tk = sim.app_call('shutdown')
+        for k in range(late):
+            R.open(modes[k % len(modes)] if modes else 'polling',
+                   autopoll=True, autopong=0)
+            sim.advance(0.125)
+        sim.advance(3)
+        sim.quiesce()
+        if not tk.done:
+            V('shutdown-hangs', 'shutdown() did not return within 3 s of '
+              'virtual time: %s' % scen.hang_signature(sim, tk))
+            return
+        if tk.exc is not None:
+            V('shutdown-raises-%s' % type(tk.exc).__name__,
+              'shutdown() raised %r' % (tk.exc,))
+        for st in R.S:
+            if not st.accepted:
+                continue
+            dis = R.disconnects(st)
+            rec.count('exactly_one_disconnect')
+            if len(dis) > 1:
+                V('disconnect-twice', 'session %d: %d disconnect events' % (
+                    st.n, len(dis)))
+            if dis:
+                continue
+            # no disconnect event: it must still be a working session
+            uid, data, wire = R.up_payload(st, 'text')
+            n0 = len(sim.events)
+            if st.mode == 'websocket' and st.ws is not None:
+                st.ws.send(wire)
+                sim.quiesce()
+                ok = True
+            else:
+                t = R.post_raw(st, wire)
+                sim.quiesce()
+                ok = t.done and t.code == 200
+            got = [e for e in sim.events[n0:] if e['ev'] == 'message' and
+                   e['sid'] == st.sid]
+            if not ok or len(got) != 1:
+                V('session-gone-without-disconnect-event', 'session %d '
+                  '(accepted, opened %s shutdown()) never got a disconnect '
+                  'event but is no longer a working session: message %s, %d '
+                  'message events; table %r' % (
+                      st.n, 'before' if st.n < len(modes) else 'during/after',
+                      'accepted' if ok else 'refused', len(got),
+                      [sim.sidn(x) for x in sim.table_sids()]))
+                continue
+            # the client says goodbye
+            if st.mode == 'websocket' and st.ws is not None:
+                R.ws_send(st, '1', cause='client disconnect')
+            else:
+                R.post_raw(st, '1', cause='client disconnect')
+            sim.quiesce()
+            sim.advance(max(dt or 0, 0) + 0.5)
+            dis = R.disconnects(st)
+            if len(dis) != 1:
+                V('no-disconnect' if not dis else 'disconnect-twice',
+                  'session %d: %d disconnect events after its client sent '
+                  'CLOSE (after a shutdown())' % (st.n, len(dis)))
+        automaton(rec, sim, R, V, final=False)
+    finally:
+        sim.teardown()
+
+
 def dispatch(rec, case):
+    if case.get('shutdown'):
+        return run_shutdown(rec, case)
     if case.get('dfs'):
         run_pair_dfs(rec, case)
     elif case.get('preempt'):
@@ -622,6 +713,15 @@ def plan(tier, seed):
     k = 2 if tier == 'quick' else 8
     for i in range(k):
         shards.append({'pairs': pre[i::k]})
+    sd = []
+    for srv in 'TA':
+        for modes in (['polling'], ['websocket'], ['polling', 'websocket'],
+                      ['polling', 'polling', 'websocket'], []):
+            for dt in (None, 0.25, 1.0):
+                for late in (0, 1, 3):
+                    sd.append({'shutdown': True, 'srv': srv, 'modes': modes,
+                               'suspend': dt, 'late': late})
+    shards.append({'pairs': sd})
     return shards
 
 
